@@ -135,6 +135,16 @@ type ctx struct {
 	rendered int
 }
 
+// inputsContain: some text of the session (schema, type, rule, document) contains s itself.
+func (x *ctx) inputsContain(s string) bool {
+	for _, src := range x.sources {
+		if strings.Contains(src, s) {
+			return true
+		}
+	}
+	return false
+}
+
 func (x *ctx) bad(format string, args ...any) { x.probs = append(x.probs, fmt.Sprintf(format, args...)) }
 
 // call runs f, reporting a panic; every returned error is examined.
@@ -199,7 +209,7 @@ func (x *ctx) examine(what string, err error) {
 				x.bad("%s: rendering the error panicked: %v", what, r)
 			}
 		}()
-		if txt := err.Error(); strings.Contains(txt, "%!") {
+		if txt := err.Error(); strings.Contains(txt, "%!") && !x.inputsContain("%!") {
 			// fmt's marker for a verb without a matching argument: a text taken from the input was
 			// used as a format string
 			x.bad("%s: the rendered error contains a formatting artefact: %s", what, txt)
@@ -372,7 +382,7 @@ func byteMutate(t *rapid.T, s string, label string) string {
 func grammarMutate(t *rapid.T, s string, label string) string {
 	reps := [][2]string{{"//", "/*"}, {"/*", "//"}, {"*/", "*"}, {"}", ""}, {"{", ""}, {"]", ""}, {"[", "[["}, {":", ""}, {",", ",,"}, {"\"", ""},
 		{"\n", "\r"}, {"\n", ""}, {"true", "tru"}, {"@", "@@"}, {"@t", "@"}, {" | ", " |"}, {" | ", "|| "}, {"optional", "optionale"}, {"min", "min\""},
-		{" - ", " "}, {"{", "{ # c\n"}, {"//", "# #"}, {"//", "###"}, {"1", "1e5"}, {"\"", "\\\""}, {"or:", "or"}, {"enum:", "enum: @x,"}}
+		{" - ", " "}, {"min", "%!"}, {"optional", "%!q"}, {"type", "%!s(MISSING)"}, {"{", "{ # c\n"}, {"//", "# #"}, {"//", "###"}, {"1", "1e5"}, {"\"", "\\\""}, {"or:", "or"}, {"enum:", "enum: @x,"}}
 	r := rapid.SampledFrom(reps).Draw(t, label+"Rep")
 	idx := strings.Index(s, r[0])
 	if idx < 0 {
@@ -411,7 +421,9 @@ func tokenMutate(t *rapid.T, s string, label string) string {
 	}
 	a, b := locs[i][0], locs[i][1]
 	tok := s[a:b]
-	repl := rapid.SampledFrom([]string{`""`, "0", "-", "@", "{}", "[]", "null", tok + tok, "", `"@"`, `"`, tok + " " + tok, "1e", `"\u12"`, "@t0 |", "01", "1e9999999999", "-2.5E-9999999999", "1e+123456789"}).Draw(t, label+"Repl")
+	repl := rapid.SampledFrom([]string{`""`, "0", "-", "@", "{}", "[]", "null", tok + tok, "", `"@"`, `"`, tok + " " + tok, "1e", `"\u12"`, "@t0 |", "01", "1e9999999999", "-2.5E-9999999999", "1e+123456789",
+		// texts that look like the leftovers and verbs of a formatting routine (they end up quoted in messages)
+		`"%!"`, `"%!s(MISSING)"`, `"%d%s%v"`, `"%!(EXTRA string=x)"`, `"%"`, `"100%"`, `"@%!"`}).Draw(t, label+"Repl")
 	return s[:a] + repl + s[b:]
 }
 
@@ -472,6 +484,9 @@ func baseCase(t *rapid.T) Case {
 		c.Types, c.Enums, c.Regexes = nil, nil, nil
 		run.Label("family:long-lines")
 		return c
+	}
+	if rapid.IntRange(0, 5).Draw(t, "percentDoc") == 0 {
+		c.Docs = append(c.Docs, rapid.SampledFrom([]string{`{"%!": 1, "%!s(MISSING)": "%!"}`, `"%!"`, `["%d", "%!v(PANIC=x)"]`, `{"id": "%!"}`}).Draw(t, "percentDocText"))
 	}
 	if rapid.IntRange(0, 5).Draw(t, "emptyDoc") == 0 {
 		c.Docs = append(c.Docs, rapid.SampledFrom([]string{"", " ", "\n", " \r\n\t"}).Draw(t, "blankDoc"))
